@@ -265,13 +265,18 @@ func init() {
 	register(&Check{ID: "C18", Level: "model_checking", Quick: 90 * time.Second, Thor: 20 * time.Minute,
 		Run: func(r *engine.Run) bool {
 			r.Rule = "all 256 byte values through Complement/Transcribe; every (query letter x sequence letter) pair of the IUPAC alphabet in both cases and every printable non-alphabet query byte against every printable sequence byte; all sequences of length <=N and queries of length <=3 over {a,c,g,t,r,n,A,K}; distinct key = (op, query, sequence); non-trivial = the reference has >=1 match or the query has a non-alphabet byte"
+			bulk := false
 			eval := func(c c18Case, nontrivial bool) {
 				c.SeqS, c.QryS = string(c.Seq), string(c.Query)
 				r.Evals.Add(1)
 				r.Transitions.Add(1)
 				ok, sig, detail := c18Eval(c)
 				if nontrivial {
-					r.Distinct.Add(c.Op + "|" + c.QryS + "|" + c.SeqS)
+					if bulk {
+						r.DistinctByConstruction.Add(1) // (sequence, query) pairs of the small-alphabet sweep are generated exactly once
+					} else {
+						r.Distinct.Add(c.Op + "|" + c.QryS + "|" + c.SeqS)
+					}
 				}
 				if !ok {
 					r.Fail(engine.Failure{Sig: sig, Case: c, Detail: detail, Size: len(c.Seq)*4 + len(c.Query)})
@@ -320,7 +325,7 @@ func init() {
 			alpha := []byte("acgtrnAK")
 			maxS, maxQ := 5, 3
 			if r.Tier == "thorough" {
-				maxS = 7
+				maxS = 6
 			}
 			var queries [][]byte
 			var gen func(cur []byte, k int, out *[][]byte)
@@ -340,6 +345,7 @@ func init() {
 			gen(nil, maxS, &seqs)
 			seqs = append(seqs, []byte{})
 			queries = append(queries, []byte{})
+			bulk = true
 			complete := r.ParallelFor(len(seqs), func(idx int) {
 				s := seqs[idx]
 				for _, q := range queries {
